@@ -143,10 +143,10 @@ def _run(case, limit, loc, ctx):
         if extra:
             stats["stray"] = extra[0]
     stats["retained"] = sum(len(s.data) for s in slots)
-    stats["alive"] = sum(1 for w in refs if w() is not None)
+    stats["alive"] = len({id(o) for o in (w() for w in refs) if o is not None})
     if stats["alive"] > stats["retained"] + 3:
         gc.collect()  # reference cycles are no leak: count again after a collection
-        stats["alive"] = sum(1 for w in refs if w() is not None)
+        stats["alive"] = len({id(o) for o in (w() for w in refs) if o is not None})
     link.finalize()
     if loc is not None:
         stats["leftover"] = sorted(os.listdir(loc))
